@@ -1448,6 +1448,10 @@ enum Recipe {
     Gvar { axes: u8, glyphs: u8, tuples: u8, seed: u64 },
     /// GPOS lookup builders -> Gpos (+ the variation store when `var`)
     GposB { seed: u64, lookups: Vec<LkSpec>, var: bool },
+    /// `k` GPOS lookups of exactly the same size (PairPos format 1, `rows` pair sets of `cols` records, start glyphs
+    /// `i * 100 + 1`), optionally after one smaller lookup: once the table needs extension promotion, the candidates
+    /// tie on "subtables per byte" and the 64 KiB budget runs out inside the tie group
+    EqualLk { k: u8, rows: u8, cols: u8, lead: bool },
     /// mock graph through the public FontWrite route (falls back to the hook when re-serialising shared subtrees is too costly)
     Dag(Dag),
     /// mock graph through pack_mock_graph
@@ -1503,6 +1507,7 @@ fn kind_name(r: &Recipe) -> &'static str {
         Recipe::Ivs { direct: true, .. } => "ivs-builder-direct",
         Recipe::Gvar { .. } => "gvar",
         Recipe::GposB { .. } => "gpos-builders",
+        Recipe::EqualLk { .. } => "gpos-equal-lookups",
         Recipe::Dag(d) => {
             if dag_public_ok(d) {
                 "dag-public"
@@ -1694,6 +1699,34 @@ fn compile_gvar(axes: u8, glyphs: u8, tuples: u8, seed: u64) -> Result<Vec<u8>, 
 }
 
 // ---- GPOS builders ------------------------------------------------------------------------------
+
+fn compile_equal_lookups(k: u8, rows: u8, cols: u8, lead: bool) -> Result<Vec<u8>, String> {
+    use wt::gpos::{Gpos, PairPos, PairSet, PairValueRecord, PositionLookup, ValueRecord};
+    use wt::layout::{Lookup, LookupFlag, LookupList};
+    let pair_pos = |start: u16, rows: u16, cols: u16| -> PositionLookup {
+        let range = start..start + rows;
+        let coverage = range.clone().map(GlyphId16::new).collect();
+        let pair_sets = range
+            .map(|id| {
+                let value = ValueRecord::new().with_x_advance(id as i16);
+                PairSet::new((id..id + cols).map(|id2| PairValueRecord::new(GlyphId16::new(id2), value.clone(), ValueRecord::default())).collect())
+            })
+            .collect::<Vec<_>>();
+        PositionLookup::Pair(Lookup::new(LookupFlag::empty(), vec![PairPos::format_1(coverage, pair_sets)]))
+    };
+    let mut lookups = vec![];
+    if lead {
+        lookups.push(pair_pos(5000, 3, 7));
+    }
+    for i in 0..k as u16 {
+        lookups.push(pair_pos(i * 100 + 1, rows as u16, cols as u16));
+    }
+    dump(&Gpos::new(Default::default(), Default::default(), LookupList::new(lookups)))
+}
+
+fn equal_lk_recipe() -> BoxedStrategy<Recipe> {
+    (4u8..10, 14u8..26, 120u8..200, any::<bool>()).prop_map(|(k, rows, cols, lead)| Recipe::EqualLk { k, rows, cols, lead }).boxed()
+}
 
 fn lk_weight(l: &LkSpec) -> u64 {
     match l {
@@ -2118,6 +2151,7 @@ fn compile_inner(r: &Recipe) -> Result<Vec<u8>, String> {
         Recipe::Ivs { axes, regions, rows, patterns, seed, direct } => compile_ivs(*axes, *regions, *rows, *patterns, *seed, *direct),
         Recipe::Gvar { axes, glyphs, tuples, seed } => compile_gvar(*axes, *glyphs, *tuples, *seed),
         Recipe::GposB { seed, lookups, var } => compile_gposb(*seed, lookups, *var),
+        Recipe::EqualLk { k, rows, cols, lead } => compile_equal_lookups(*k, *rows, *cols, *lead),
         Recipe::Dag(d) => {
             if !d.well_formed() {
                 return Err("malformed graph spec".into());
@@ -2250,6 +2284,17 @@ fn features(r: &Recipe, out: &Outcome, ids: usize) -> Feat {
                 tags.push("gpos:>64K(overflow-resolution)");
             }
             nt = ids >= 4;
+        }
+        Recipe::EqualLk { .. } => {
+            if let Some((_, _, ext)) = layout_shape(bytes, 9) {
+                if ext > 0 {
+                    tags.push("gpos-equal:extension-promotion");
+                    nt = true;
+                }
+            }
+            if bytes.len() > 65_535 {
+                tags.push("gpos-equal:>64K");
+            }
         }
         Recipe::Dag(d) | Recipe::Mock(d) => {
             let total = d.total_len();
@@ -2647,6 +2692,7 @@ fn value_recipe() -> BoxedStrategy<Recipe> {
         12 => ivs_recipe(false),
         10 => gvar_recipe(false),
         8 => gposb_recipe(false),
+        3 => equal_lk_recipe(),
         14 => dag_strategy(false).prop_map(Recipe::Dag),
         10 => dag_strategy(false).prop_map(Recipe::Mock),
         7 => owned_recipe(),
